@@ -91,3 +91,144 @@ pub fn extremes(ctx: &Ctx) {
         one!(i64);
     });
 }
+
+/// Parameter extremes: every constructor / builder at the ends (and around the internal
+/// thresholds) of its DOCUMENTED argument range, followed by a short script of valid calls.
+/// Each configuration is a separate case so that one panic does not hide the others.
+pub fn param_extremes(ctx: &Ctx) {
+    let case = |what: String, f: &mut dyn FnMut()| {
+        if let Err(p) = catch(|| f()) {
+            ctx.violation(&format!("panic|{}", p.site_key()), &format!("{what}: {} at {}:{}", p.message, p.file, p.line), json!({"kind":"param_extreme","what":what}));
+        }
+        ctx.add_states(1);
+        ctx.add_transitions(1);
+    };
+    // t-digest: k is any u16 >= 10
+    for k in [10u16, 11, 12, 100, 1000, 16383, 16384, 32767, 32768, 32769, 40000, 65534, 65535] {
+        case(format!("TDigestMut::new({k}): 60 updates, queries (forces a compress), round trip, merges"), &mut || {
+            use datasketches::tdigest::TDigestMut;
+            let mut t = TDigestMut::new(k);
+            for i in 0..60 {
+                t.update((i * 37 % 61) as f64);
+            }
+            let _ = (t.rank(30.0), t.quantile(0.5), t.cdf(&[10.0, 20.0]), t.min_value(), t.max_value(), t.total_weight());
+            let img = t.serialize();
+            let mut d = TDigestMut::deserialize(&img, false).unwrap();
+            d.update(1.5);
+            let mut small = TDigestMut::new(10);
+            for i in 0..500 {
+                small.update(i as f64 * 0.5);
+            }
+            d.merge(&small);
+            small.merge(&t);
+            let _ = (d.quantile(0.9), small.quantile(0.1), d.serialize(), small.serialize());
+            let f = d.freeze();
+            let _ = (f.rank(3.0), f.quantile(0.25));
+        });
+    }
+    // theta: lg_k in [5, 26], p in (0, 1] (f32)
+    for lg_k in [5u8, 6, 12, 26] {
+        for p in [1.0f32, 0.999_999_94, 0.5, 1e-3, 1e-10, 1.2e-19, 1.0e-19, 1e-20, 1e-30, f32::MIN_POSITIVE, f32::from_bits(1)] {
+            case(format!("ThetaSketch lg_k={lg_k} sampling_probability({p:e}): updates, estimate, bounds, compact, serialize, trim, reset"), &mut || {
+                use datasketches::common::NumStdDev::*;
+                use datasketches::theta::ThetaSketch;
+                let mut s = ThetaSketch::builder().lg_k(lg_k).sampling_probability(p).build();
+                let _ = (s.estimate(), s.lower_bound(Two), s.upper_bound(Two), s.is_empty());
+                for i in 0..200u64 {
+                    s.update(i);
+                }
+                let _ = (s.estimate(), s.theta(), s.num_retained(), s.is_estimation_mode());
+                for n in [One, Two, Three] {
+                    let _ = (s.lower_bound(n), s.upper_bound(n));
+                }
+                for ordered in [true, false] {
+                    let c = s.compact(ordered);
+                    let _ = (c.estimate(), c.lower_bound(Two), c.upper_bound(Two));
+                    let a = c.serialize();
+                    let b = c.serialize_compressed();
+                    let _ = datasketches::theta::CompactThetaSketch::deserialize(&a).map(|d| (d.estimate(), d.upper_bound(Three)));
+                    let _ = datasketches::theta::CompactThetaSketch::deserialize(&b).map(|d| (d.estimate(), d.lower_bound(Three)));
+                }
+                s.trim();
+                let _ = s.estimate();
+                s.reset();
+                let _ = (s.estimate(), s.upper_bound(One));
+            });
+        }
+    }
+    // Frequent Items: max_map_size is any power of two (usize)
+    for lg in 0..usize::BITS {
+        case(format!("FrequentItemsSketch::<i64>::new(1 << {lg}): updates, queries, serialize"), &mut || {
+            use datasketches::frequencies::{ErrorType, FrequentItemsSketch};
+            let mut s = FrequentItemsSketch::<i64>::new(1usize << lg);
+            let _ = (s.maximum_map_capacity(), s.current_map_capacity(), s.epsilon(), s.lg_max_map_size());
+            for i in 0..40 {
+                s.update_with_count(i % 13, 1 + (i as u64 % 4));
+            }
+            let _ = (s.estimate(&3), s.upper_bound(&99), s.maximum_error(), s.frequent_items(ErrorType::NoFalsePositives).len());
+            let mut o = FrequentItemsSketch::<i64>::new(8);
+            o.update(5);
+            s.merge(&o);
+            let _ = s.serialize();
+        });
+    }
+    // HLL and CPC: every lg_k of the documented range
+    for lg_k in 4u8..=21 {
+        case(format!("HllSketch/HllUnion lg_k={lg_k}: new, 30 updates, bounds, round trip, union"), &mut || {
+            use datasketches::hll::{HllSketch, HllType, HllUnion};
+            let mut u = HllUnion::new(lg_k);
+            for t in [HllType::Hll4, HllType::Hll6, HllType::Hll8] {
+                let mut s = HllSketch::new(lg_k, t);
+                for i in 0..30u64 {
+                    s.update(i);
+                }
+                let _ = (s.estimate(), s.upper_bound(datasketches::common::NumStdDev::Three));
+                let d = HllSketch::deserialize(&s.serialize()).unwrap();
+                u.update(&d);
+            }
+            let _ = (u.estimate(), u.to_sketch(HllType::Hll4).serialize());
+        });
+    }
+    for lg_k in 4u8..=26 {
+        case(format!("CpcSketch/CpcUnion lg_k={lg_k}: new, 30 updates, bounds, round trip, union"), &mut || {
+            use datasketches::cpc::{CpcSketch, CpcUnion};
+            let mut s = CpcSketch::new(lg_k);
+            for i in 0..30u64 {
+                s.update(i);
+            }
+            let _ = (s.estimate(), s.upper_bound(datasketches::common::NumStdDev::One), s.validate());
+            let d = CpcSketch::deserialize(&s.serialize()).unwrap();
+            let mut u = CpcUnion::new(lg_k);
+            u.update(&d);
+            u.update(&CpcSketch::new(4));
+            let r = u.to_sketch();
+            let _ = (r.estimate(), r.upper_bound(datasketches::common::NumStdDev::One), r.lower_bound(datasketches::common::NumStdDev::Three), r.serialize());
+        });
+    }
+    // Count-Min helpers and Bloom builders over their documented ranges
+    for re in [0.0f64, f64::MIN_POSITIVE, 1e-300, 1e-12, 1e-9, 1e-3, 0.5, 1.0, 2.0, 1e9, f64::MAX, f64::INFINITY] {
+        case(format!("CountMinSketch::suggest_num_buckets({re:e})"), &mut || {
+            let _ = datasketches::countmin::CountMinSketch::<u64>::suggest_num_buckets(re);
+        });
+    }
+    for c in [0.0f64, f64::MIN_POSITIVE, 1e-9, 0.5, 0.99, 1.0 - f64::EPSILON, 1.0] {
+        case(format!("CountMinSketch::suggest_num_hashes({c:e})"), &mut || {
+            let _ = datasketches::countmin::CountMinSketch::<u64>::suggest_num_hashes(c);
+        });
+    }
+    for n in [1u64, 2, 1000, 1 << 20, 1 << 32] {
+        for fpp in [f64::MIN_POSITIVE, 1e-300, 1e-12, 1e-3, 0.5, 1.0 - f64::EPSILON, 1.0] {
+            case(format!("BloomFilterBuilder::with_accuracy({n}, {fpp:e}) (built only when it needs <= 2^26 bits)"), &mut || {
+                use datasketches::bloom::BloomFilterBuilder;
+                let bits = BloomFilterBuilder::suggest_num_bits(n, fpp);
+                let _ = BloomFilterBuilder::suggest_num_hashes_from_fpp(fpp);
+                let _ = BloomFilterBuilder::suggest_num_hashes_from_accuracy(n, bits);
+                if bits <= 1 << 26 {
+                    let mut f = BloomFilterBuilder::with_accuracy(n, fpp).build();
+                    f.insert(1u64);
+                    let _ = (f.contains(&1u64), f.bits_used(), f.estimated_fpp(), f.serialize().len());
+                }
+            });
+        }
+    }
+}
